@@ -115,9 +115,13 @@ _p("C06", "proof",
    "reflects durable storage on the followers is cluster-level and checked by monitors (durable joint quorum at every commit advancement).", ["wf_msg"])
 _p("C07", "proof",
    "Theorems C07_incarnation / C07_exposed / C07_restart / C07_step: the hard state (term, vote, commit) moves forward only, for every sequence of "
-   "RawNode API calls, every message of any type, term and content, every storage write; a restart continues from exactly the persisted hard state.",
-   ["wf_input: a stepped MsgApp/MsgHeartbeat/MsgSnap carries a non-zero term (true of every message raft sends)",
-    "clause (d) (no emitted message carries a term below the incarnation's starting term) is monitored, not yet proved"])
+   "RawNode API calls, every message of any type, term and content, every storage write; a restart continues from exactly the persisted hard state. "
+   "Clause (d), never acting in a lower term (Proofs/TermProofs.v): for every function of raft.go, whatever a node emits carries a term that is not below "
+   "the term it had before, or no term at all in the case of a forwarded proposal / read request (C07_step_emits_no_lower_term, C07_tick_emits_no_lower_term); "
+   "through the RawNode API every message a Ready hands to the transport or attaches to the storage write satisfies this for the whole incarnation "
+   "(C07_node_emits_no_lower_term, C07_history_no_lower_term), and a new incarnation starts with nothing queued at the term of the persisted hard state "
+   "(C07_restart_term_invariant).",
+   ["wf_input: a stepped MsgApp/MsgHeartbeat/MsgSnap carries a non-zero term (true of every message raft sends)"])
 _p("C08", "proof",
    "Proved (Props/C08.v) for every well-formed log/storage state: nextCommittedEnts returns nothing while paused or while a snapshot is pending, "
    "otherwise consecutive entries starting right after the applying cursor, within commit, and (async) below the unstable offset; batches respect "
@@ -227,4 +231,9 @@ _p("C19", "proof",
 _p("C20", "proof",
    "Proved (Props/C20.v): appendEntry stamps term/index and keeps type, payload and order; a proposal that does not fit is reported dropped and "
    "appends nothing; a follower forwards the proposal unchanged to its leader or reports it dropped and queues nothing; a candidate drops. "
-   "Cluster-level provenance (every payload in every log stems from a Propose call, no duplication beyond deliveries) is monitored with unique tokens.", [])
+   "On the logical log (Proofs/ProposalProofs.v): the gate keeps every entry of a proposal in place and may only replace a configuration change by an empty "
+   "normal entry (C20_gate_shape); a proposal stepped at a leader is reported dropped with the log untouched, or extends the logical log at its end by exactly "
+   "the gated entries in order, stamped with the leader's term and the next indexes (C20_leader_propose; C20_step_propose for every role); becoming leader adds "
+   "exactly one empty entry (C20_one_empty_entry_per_leadership); C20_proposal_nonvacuous is a concrete leader and proposal. "
+   "Cluster-level provenance (every payload in every log stems from a Propose call, no duplication beyond deliveries) is monitored with unique tokens.",
+   ["well-formedness of storage and unstable log (l_wf) at the proposal, as for C03/C18"])
